@@ -56,6 +56,7 @@ type Spec struct {
 	// Known findings: avoidance is built into Gen; each witness must still reproduce.
 	QuickSecs    int
 	ThoroughSecs int
+	Race         bool // also run under the race-detector build
 }
 
 var Specs = map[string]*Spec{}
@@ -143,6 +144,7 @@ func Worker(s *Spec, tier string, batch uint64, k, stride, maxRuns int, deadline
 	distinct := map[uint64]bool{}
 	states := map[uint64]bool{}
 	scheds := map[uint64]bool{}
+	rw := globalRaceWatcher()
 	for i := k; maxRuns <= 0 || i < maxRuns; i += stride {
 		if time.Now().After(deadline) {
 			break
@@ -154,6 +156,12 @@ func Worker(s *Spec, tier string, batch uint64, k, stride, maxRuns int, deadline
 			exec = s.ExecTier(tier)
 		}
 		res := exec(seed, p)
+		if rw != nil {
+			rv, total := rw.poll()
+			res.Viol = append(res.Viol, rv...)
+			out.Probes["race-reports-total"] += total
+			out.Probes["race-reports-in-nutsdb"] += len(rv)
+		}
 		out.Runs++
 		addMap(out.Probes, res.Probes)
 		addMap(out.Faults, res.Faults)
@@ -395,6 +403,10 @@ func Reproduce(rp *Replay) (bool, []run.Violation) {
 		return false, nil
 	}
 	res := s.Exec(rp.Seed, rp.Program)
+	if rw := globalRaceWatcher(); rw != nil {
+		rv, _ := rw.poll()
+		res.Viol = append(res.Viol, rv...)
+	}
 	return sameFailure(res.Viol, rp.Violation.Sig), res.Viol
 }
 
